@@ -29,6 +29,7 @@ DEFINITE = [
     ('possible division by zero', 'arith'),
     ('possible bit shift underflow/overflow', 'arith'),
     ('assertion failed', 'assert'),
+    ('requires not satisfied', 'assert'),
     ('invariant not satisfied at end of loop body', 'loop-invariant'),
     ('invariant not satisfied before loop', 'loop-invariant'),
     ('loop invariant not satisfied', 'loop-invariant'),
@@ -130,6 +131,8 @@ def analyse_generated(text, regions, unit_props):
                     while k < depth_guard:
                         t = toks[k]
                         if t.kind == 'punct' and t.text in '([{':
+                            if cur is not None and start_tok is None:
+                                start_tok = k
                             k = t.match + 1
                             continue
                         if t.kind == 'ident' and t.text in ('forall', 'exists', 'choose'):
